@@ -15,6 +15,10 @@ import Nq.Lemmas.C17Inject
 import Nq.Lemmas.C17Clean
 import Nq.Lemmas.C17Roundtrip
 import Nq.Lemmas.C17Hfield
+import Nq.Lemmas.C17HeaderLaws
+import Nq.Lemmas.C17Hidden
+import Nq.Lemmas.C17HeaderInv
+import Nq.Lemmas.C17UnparseLines
 
 namespace Nq.Props.C17
 open Nq Nq.Quote Nq.Token822 Nq.SmtpAddr Nq.Inject Nq.Spec.Addr Nq.Spec.Lex822 Nq.Lemmas.C17
@@ -1270,5 +1274,432 @@ example : argAddress exCfg [97, 32, 98, 64, 120] = some [97, 32, 98, 64, 120, 46
 example : rewriteMailbox exSp [97, 32, 98] (some [120]) = [97, 32, 98, 64, 120, 46, 100] := by decide
 /-- `RCPT TO:<a@x>` CR LF -/
 example : rcptToLine [97, 64, 120] = [82, 67, 80, 84, 32, 84, 79, 58, 60, 97, 64, 120, 62, 13, 10] := by decide
+
+/-! ### Session 4: headerbody.c / getln.c against an independent description (`Nq.Spec.HeaderBody`) -/
+
+section HeaderBody
+open Nq.Spec.HeaderBody Nq.Lemmas.C17HB
+
+/-- **getln/getsa: the lines of the message.**  The model's left-to-right accumulator loop delivers exactly
+the lines of the right-to-left description `linesOf`; and these are characterised declaratively: concatenated
+they give the input back with a final LF supplied when it was missing (`norm`, the first documented
+alteration), and each holds exactly one LF, at its end. -/
+theorem C17_lines_spec (inp : Bytes) :
+    splitLines inp = linesOf inp ∧ (linesOf inp).flatten = norm inp ∧ ∀ l ∈ linesOf inp, isLine l = true :=
+  ⟨splitLines_eq inp, linesOf_flatten inp, linesOf_isLine inp⟩
+
+example : linesOf [97, 58, 10, 32, 98, 10, 10, 99] = [[97, 58, 10], [32, 98, 10], [10], [99, 10]] := by decide
+example : norm [97, 58, 10, 32, 98, 10, 10, 99] = [97, 58, 10, 32, 98, 10, 10, 99, 10] := by decide
+example : norm [97, 10] = [97, 10] ∧ norm [] = [] := by decide
+
+/-- **headerbody() = its description, for EVERY input.**  The fields handed to `dohf` are: take the longest
+prefix of the lines that begins with a field start (`From ` line or `hfield_valid`) and consists of field
+starts and continuation lines (`hdr`: it ends before the first empty line or the first line that is neither),
+cut it into the maximal groups "line + the continuation lines that follow" (`groups`), concatenate each group
+and put `MBOX-Line: ` in front of a `From ` line (`fieldOf`); the pieces handed to `dobl` are the remaining
+lines, preceded by an inserted empty line when the first of them is not one (`bodyOf`). -/
+theorem C17_headerbody_spec (inp : Bytes) :
+    (headerbody inp).fields = specFields inp ∧ (headerbody inp).body = specBody inp := by
+  rw [headerbody_eq]; exact ⟨rfl, rfl⟩
+
+/-- `a:` LF SP `b` LF LF `c`: one field `a:\n b\n`, body = the empty line and `c\n` (LF supplied) -/
+example : specFields [97, 58, 10, 32, 98, 10, 10, 99] = [[97, 58, 10, 32, 98, 10]] ∧
+    specBody [97, 58, 10, 32, 98, 10, 10, 99] = [[10], [99, 10]] := by decide +kernel
+/-- `From x` LF `a:` LF `zz` LF: fields `MBOX-Line: From x\n`, `a:\n`; the line `zz` ends the header and an
+empty line is inserted -/
+example : specFields [70, 114, 111, 109, 32, 120, 10, 97, 58, 10, 122, 122, 10]
+      = [[77, 66, 79, 88, 45, 76, 105, 110, 101, 58, 32, 70, 114, 111, 109, 32, 120, 10], [97, 58, 10]] ∧
+    specBody [70, 114, 111, 109, 32, 120, 10, 97, 58, 10, 122, 122, 10] = [[10], [122, 122, 10]] := by decide +kernel
+
+/-- **Partition laws of the description** (on the lines `ls` of any input): (1) order preserved, nothing
+lost or duplicated — the groups of the header, concatenated, followed by the rest, are the lines; (2) every
+group is a field start followed by continuation lines only (so, a field start not being a continuation line,
+the groups are maximal); (3) maximality of the header — the first line after it is not a field start, and it is
+a continuation line only when there is no header at all (a message beginning with SP/TAB). -/
+theorem C17_headerbody_partition (inp : Bytes) :
+    (groups (hdr (linesOf inp))).flatten ++ rest (linesOf inp) = linesOf inp ∧
+    (∀ g ∈ groups (hdr (linesOf inp)), ∃ s cs, g = s :: cs ∧ isStart s = true ∧ ∀ c ∈ cs, isCont c = true) ∧
+    (∀ s, isStart s = true → isCont s = false) ∧
+    (∀ x, (rest (linesOf inp)).head? = some x → isStart x = false ∧ (isCont x = true → hdr (linesOf inp) = [])) :=
+  ⟨groups_hdr_rest _, groups_shape _, start_not_cont, rest_head _⟩
+
+/-- **Concatenation law and shape of the fields, on what `headerbody` delivers.**  For every input:
+(1) `reassembles` — walking along the input (final LF supplied), each field, or for a field
+`MBOX-Line: From …` the `From …` line it was made from, is the next piece, in order, and what is left is the
+body, the body having one extra LF in front exactly when that remainder is non-empty and does not begin with
+an empty line; (2) the same as an equation on the un-altered groups; (3) every field begins with a valid field
+name (`hfield_valid` accepts it — so qmail-inject's "bad header field" exit is unreachable from `headerbody`)
+and (4) is ONE logical line: it ends in LF and every other LF in it is followed by SP or TAB — in particular
+no field contains an empty line or a second field. -/
+theorem C17_headerbody_laws (inp : Bytes) :
+    reassembles inp (headerbody inp).fields (headerbody inp).body = true ∧
+    ((groups (hdr (linesOf inp))).map List.flatten).flatten ++ (rest (linesOf inp)).flatten = norm inp ∧
+    (∀ f ∈ (headerbody inp).fields, hfieldValid f = true ∧ logicalLine f = true ∧ f.getLast? = some LF ∧
+      ∀ pre post, f = pre ++ LF :: post → post = [] ∨ post.head? = some SP ∨ post.head? = some TAB) := by
+  rw [headerbody_eq]
+  refine ⟨spec_reassembles inp, spec_concat inp, ?_⟩
+  intro f hf
+  simp only [specFields, List.mem_map] at hf
+  obtain ⟨g, hg, rfl⟩ := hf
+  have := fields_ok (linesOf inp) (linesOf_isLine inp) g hg
+  exact ⟨this.1, this.2, logicalLine_lf _ this.2⟩
+
+example : reassembles [70, 114, 111, 109, 32, 120, 10, 97, 58, 10, 122, 122, 10]
+    [[77, 66, 79, 88, 45, 76, 105, 110, 101, 58, 32, 70, 114, 111, 109, 32, 120, 10], [97, 58, 10]] [[10], [122, 122, 10]] = true := by
+  decide +kernel
+/-- complement: a field list that drops a field, or a body without the inserted empty line, is refused -/
+example : reassembles [70, 114, 111, 109, 32, 120, 10, 97, 58, 10, 122, 122, 10]
+    [[77, 66, 79, 88, 45, 76, 105, 110, 101, 58, 32, 70, 114, 111, 109, 32, 120, 10], [97, 58, 10]] [[122, 122, 10]] = false := by
+  decide +kernel
+example : logicalLine [97, 58, 10, 32, 98, 10] = true ∧ logicalLine [97, 58, 10, 10] = false ∧ logicalLine [97, 58, 10, 98, 58, 10] = false := by
+  decide
+
+/-- **The envelope, from the raw input bytes** (`C17_envelope_inject` composed with `C17_headerbody_spec`):
+for every message and option set with which qmail-inject exits 0 and queues, the recipients handed to
+qmail-queue are the rewritten arguments followed by the concatenation of the contributions of the fields of the
+DESCRIPTION `specFields inp` — the header lines of the input bytes, grouped — the Resent- ones if any of these
+fields is one of the eight Resent- fields, else the To/Cc/Bcc/Apparently-To ones. -/
+theorem C17_envelope_from_bytes (e : Env) (a : Args) (inp : Bytes) (dd dh pd : List Tok)
+    (hdd : parse ([46] ++ e.defaultdomain) = some dd) (hdh : parse ([AT] ++ e.defaulthost) = some dh)
+    (hpd : parse ([46] ++ e.plusdomain) = some pd)
+    (hex : (inject e a inp).exit = 0) (hq : a.queue = true) :
+    (inject e a inp).recips =
+      ((if effStrategy a = 3 then [] else a.recips.filterMap (argAddress ⟨dh, dd, pd⟩)) ++
+       (if effStrategy a = 2 then []
+        else if (specFields inp).any isResentField then (specFields inp).flatMap (hrContribution ⟨dh, dd, pd⟩ 2)
+        else (specFields inp).flatMap (hrContribution ⟨dh, dd, pd⟩ 1))).map cstr := by
+  have := (C17_envelope_inject e a inp dd dh pd hdd hdh hpd hex hq).2
+  rw [(C17_headerbody_spec inp).1] at this
+  exact this
+
+end HeaderBody
+
+/-! ### Session 4: Bcc removal on the final TEXT, reduced to the line structure of the rewritten pieces -/
+
+section HiddenText
+open Nq.Spec.HeaderBody Nq.Spec.Hidden Nq.Lemmas.C17HB Nq.Lemmas.C17Hid
+
+/-- **A field that qmail-inject keeps verbatim cannot smuggle a hidden field** (uses `C17_headerbody_laws`): a
+field text that `hfield_valid` accepts, that is one logical line, and whose own name is not
+Bcc/Resent-Bcc/Return-Path/Content-Length is a *safe piece* — it ends in LF, and each of its lines, as the
+independent reader `Spec.Addr.splitLF` cuts them, is a continuation line or does not carry a hidden name (the
+first physical line carries the field's own name, every other line begins with SP/TAB). -/
+theorem C17_verbatim_field_safe (h : Bytes) (hv : hfieldValid h = true) (hl : logicalLine h = true)
+    (hn : nameIn hiddenFields h = false) : pieceSafe h = true :=
+  verbatim_safe h hv hl hn
+
+/-- `Subject: a` LF SP `Bcc: x` LF — the second line looks like a Bcc field but is a continuation line -/
+example : pieceSafe [83, 117, 98, 106, 101, 99, 116, 58, 32, 97, 10, 32, 66, 99, 99, 58, 32, 120, 10] = true := by decide +kernel
+/-- complement: the same without the SP is not one logical line, and not a safe piece -/
+example : logicalLine [83, 117, 98, 106, 101, 99, 116, 58, 32, 97, 10, 66, 99, 99, 58, 32, 120, 10] = false ∧
+    pieceSafe [83, 117, 98, 106, 101, 99, 116, 58, 32, 97, 10, 66, 99, 99, 58, 32, 120, 10] = false := by decide +kernel
+
+/-- **Bcc removal on the final text, PARTIAL** (extends `C17_bcc_message_partial`; the full statement is the same
+without the hypotheses `hfrom` and `hrw`).  For every message and option set with which qmail-inject exits 0 and
+queues: if the Date and Message-ID texts of the environment are safe pieces (input-level), and the generated From
+field and every REWRITTEN field text (fields of class ≠ 0: the address-bearing fields, re-written by
+`token822_unparse`) are safe pieces, then the independent reader `Spec.Addr.fieldNames` finds NO
+Bcc/Resent-Bcc/Return-Path/Content-Length name in the message handed to qmail-queue.  Proved here, not assumed:
+the message is header pieces followed by nothing or by a body that begins with an empty line (`headerbody` always
+delivers one: `bodyOf`), so the reader's header is made of lines of the pieces only; every field kept VERBATIM
+(class 0, e.g. Subject, Received, unknown names — whatever LF/continuations it holds) is a safe piece by
+`C17_headerbody_laws` + `C17_verbatim_field_safe`; dropped fields contribute nothing; the generated
+`Cc: recipient list not shown: ;` is safe.  NOT proved (so `_partial`, and still oracle `Ihidden` on every produced
+message): `pieceSafe (token822_unparse …)` for the rewritten fields and the generated From, i.e. the line structure
+of `token822_unparse`'s output (a quoted string may hold `\` LF) and that its first line carries the field's name. -/
+theorem C17_bcc_text_partial (e : Env) (a : Args) (inp : Bytes) (dd dh pd : List Tok)
+    (hdd : parse ([46] ++ e.defaultdomain) = some dd) (hdh : parse ([AT] ++ e.defaulthost) = some dh)
+    (hpd : parse ([46] ++ e.plusdomain) = some pd)
+    (hex : (inject e a inp).exit = 0) (hq : a.queue = true)
+    (hdate : pieceSafe e.date = true ∧ pieceSafe (str "Resent-" ++ e.date) = true)
+    (hmsgid : pieceSafe (msgid e) = true ∧ pieceSafe (str "Resent-" ++ msgid e) = true)
+    (hfrom : ∀ t, defaultFrom e ⟨dh, dd, pd⟩ = some t → pieceSafe t = true ∧ pieceSafe (str "Resent-" ++ t) = true)
+    (hrw : ∀ h ∈ specFields inp, (fieldClass (hfieldKnown h)).1 ≠ 0 →
+      ∀ p ∈ savedContribution e ⟨dh, dd, pd⟩ h, pieceSafe p = true) :
+    ∀ n ∈ fieldNames (inject e a inp).msg, n ∉ hiddenFields := by
+  obtain ⟨⟨rp, d, m, f, cc, hrp, hmsg, hd, hm, hf, hcc⟩, _⟩ := C17_bcc_message_partial e a inp dd dh pd hdd hdh hpd hex
+  have hrp0 := hrp hq
+  subst hrp0
+  have hfields := (C17_headerbody_spec inp).1
+  have hlaws := (C17_headerbody_laws inp).2.2
+  have hbody : (headerbody inp).body.flatten = [] ∨ ∃ b', (headerbody inp).body.flatten = LF :: b' := by
+    rw [(C17_headerbody_spec inp).2]; exact bodyOf_head _
+  have hre : (inject e a inp).msg =
+      ([d, m, f, cc] ++ (headerbody inp).fields.flatMap (savedContribution e ⟨dh, dd, pd⟩)).flatten ++ (headerbody inp).body.flatten := by
+    rw [hmsg]; simp
+  rw [hre]
+  apply fieldNames_safe _ _ ?_ hbody
+  intro p hp
+  simp only [List.mem_append, List.mem_cons, List.mem_flatMap, List.not_mem_nil, or_false] at hp
+  rcases hp with (hp | hp | hp | hp) | ⟨h, hh, hp⟩
+  · subst hp
+    rcases hd with hd | hd | hd <;> subst hd
+    · exact cc_safe.2.2
+    · exact hdate.1
+    · exact hdate.2
+  · subst hp
+    rcases hm with hm | hm | hm <;> subst hm
+    · exact cc_safe.2.2
+    · exact hmsgid.1
+    · exact hmsgid.2
+  · subst hp
+    rcases hf with hf | ⟨t, ht, hf | hf⟩
+    · rw [hf]; exact cc_safe.2.2
+    · rw [hf]; exact (hfrom t ht).1
+    · rw [hf]; exact (hfrom t ht).2
+  · subst hp
+    rcases hcc with hcc | hcc | hcc <;> subst hcc
+    · exact cc_safe.2.2
+    · exact cc_safe.1
+    · exact cc_safe.2.1
+  · by_cases hcls : (fieldClass (hfieldKnown h)).1 = 0
+    · unfold savedContribution at hp
+      simp only [hcls, if_true] at hp
+      split at hp
+      · simp at hp
+      · split at hp
+        · simp at hp
+        · rename_i hdrop
+          simp only [List.mem_singleton] at hp
+          subst hp
+          have hl := hlaws p hh
+          have hn : nameIn hiddenFields p = false := by
+            rw [← dropped_name p]; simpa using hdrop
+          exact verbatim_safe p hl.1 hl.2.1 hn
+    · exact hrw h (hfields ▸ hh) hcls p hp
+
+/-- non-vacuity of `C17_bcc_text_partial`: `To: a@b` / `Bcc: k@l` / `Subject: s` LF SP `Bcc: x` / empty line / `z` -/
+def exEnv4 : Env :=
+  { mailuser := [117]
+    defaultdomain := [100]
+    defaulthost := [104]
+    plusdomain := [112]
+    idhost := [105]
+    date := [68, 97, 116, 101, 58, 32, 120, 10]
+    stamp := [49] }
+def exInp4 : Bytes := [84, 111, 58, 32, 97, 64, 98, 10, 66, 99, 99, 58, 32, 107, 64, 108, 10,
+  83, 117, 98, 106, 101, 99, 116, 58, 32, 115, 10, 32, 66, 99, 99, 58, 32, 120, 10, 10, 122, 10]
+example :
+    parse ([46] ++ exEnv4.defaultdomain) = some exCfg.defaultdomain ∧ parse ([AT] ++ exEnv4.defaulthost) = some exCfg.defaulthost ∧
+    parse ([46] ++ exEnv4.plusdomain) = some exCfg.plusdomain ∧
+    (inject exEnv4 {} exInp4).exit = 0 ∧
+    pieceSafe exEnv4.date = true ∧ pieceSafe (msgid exEnv4) = true ∧
+    (defaultFrom exEnv4 exCfg).all (fun t => pieceSafe t) = true ∧
+    (∀ h ∈ specFields exInp4, (fieldClass (hfieldKnown h)).1 ≠ 0 → ∀ p ∈ savedContribution exEnv4 exCfg h, pieceSafe p = true) ∧
+    (inject exEnv4 {} exInp4).recips = [[97, 64, 98, 46, 100], [107, 64, 108, 46, 100]] ∧
+    fieldNames (inject exEnv4 {} exInp4).msg = [[100, 97, 116, 101], [109, 101, 115, 115, 97, 103, 101, 45, 105, 100], [102, 114, 111, 109], [116, 111], [115, 117, 98, 106, 101, 99, 116]] := by
+  decide +kernel
+
+end HiddenText
+
+/-! ### Session 4: the converse of the header splitting, and the envelope from the raw bytes of a well-formed message -/
+
+section WellFormed
+open Nq.Spec.HeaderBody Nq.Lemmas.C17HB
+
+/-- **Every well-formed message is split into exactly its fields.**  Write a message as field texts, each
+well-formed (`wfField`: one logical line — it ends in LF and every other LF is followed by SP/TAB —, accepted by
+`hfield_valid`, not a `From ` line), followed by nothing or by an empty line and ANY bytes.  Then `headerbody`
+hands `dohf` exactly these texts, in order, and `dobl` the empty line and the bytes after it (a final LF supplied
+if missing).  With `C17_headerbody_laws` (every delivered field IS well-formed up to the `From ` case) this makes
+the description an exact inverse of concatenation. -/
+theorem C17_headerbody_wellformed (texts : List Bytes) (tail : Bytes) (hw : ∀ t ∈ texts, wfField t = true)
+    (htail : tail = [] ∨ ∃ b, tail = LF :: b) :
+    (headerbody (texts.flatten ++ tail)).fields = texts ∧
+    (headerbody (texts.flatten ++ tail)).body = linesOf tail ∧
+    (headerbody (texts.flatten ++ tail)).body.flatten = norm tail := by
+  obtain ⟨h1, h2⟩ := spec_wellformed texts tail hw htail
+  have hb : (headerbody (texts.flatten ++ tail)).body = linesOf tail := by
+    rw [(C17_headerbody_spec _).2, specBody, h2]
+    rcases htail with h | ⟨b, h⟩
+    · subst h; rfl
+    · subst h; simp [linesOf, bodyOf]
+  refine ⟨by rw [(C17_headerbody_spec _).1]; exact h1, hb, ?_⟩
+  rw [hb, linesOf_flatten]
+
+/-- `To: a` LF SP `b` LF and `X:` LF are well-formed -/
+example : wfField [84, 111, 58, 32, 97, 10, 32, 98, 10] = true ∧ wfField [88, 58, 10] = true := by decide +kernel
+/-- complements: a text holding two fields, a `From ` line, a text without colon are not -/
+example : wfField [84, 111, 58, 32, 97, 10, 98, 58, 10] = false ∧ wfField [70, 114, 111, 109, 32, 58, 10] = false ∧
+    wfField [97, 10] = false := by decide +kernel
+/-- … and `To: a` LF `b:` LF is indeed delivered as two fields -/
+example : specFields [84, 111, 58, 32, 97, 10, 98, 58, 10] = [[84, 111, 58, 32, 97, 10], [98, 58, 10]] := by decide +kernel
+
+/-- description of one header field for `C17_envelope_end_to_end`: its text and what it must contribute to the
+To/Cc/Bcc/Apparently-To list (`c1`) and to the Resent-To/Cc/Bcc list (`c2`) -/
+structure FieldD where
+  text : Bytes
+  c1 : List Bytes
+  c2 : List Bytes
+
+/-- the field is EITHER a legal rendering (any quoting, white space, comments: the hypotheses of
+`C17_field_end_to_end`) of `name : address-list tree L` whose own name is To/Cc/Bcc/Apparently-To (`cls = 1`) or
+Resent-To/Cc/Bcc (`cls = 2`), and then contributes, to the list of its class, the tree's mailboxes rewritten by the
+documented string-level rule and nothing to the other list; OR its name is none of these seven, and it contributes nothing -/
+def FieldD.ok (c : RwCfg) (sp : RwSpec) (d : FieldD) : Prop :=
+  (∃ (cls : Nat) (L : List Addr) (cts : List (Bytes × CTok)) (tr : Bytes) (name colon : Tok) (body : List Tok),
+      d.text = render cts tr ∧ (∀ a ∈ L, a.ok) ∧ cts.all (fun p => p.2.ok) = true ∧ sepsOk false cts = true ∧ tr.all isWs = true ∧
+      cts.map (fun p => p.2.tok) = name :: colon :: body ∧
+      body.filter notComment = (((flatAddrs L).flatMap El.toks).reverse).filter notComment ∧
+      (∀ m ∈ L.flatMap Addr.mailboxes, specShape (rwroute m) = true ∧ ∀ y, m ≠ .literal [] :: .at :: y) ∧
+      ((cls = 1 ∧ nameIn rcptFields d.text = true ∧
+          d.c1 = (L.flatMap Addr.mailboxes).map (fun m => specString sp (rwroute m)) ∧ d.c2 = []) ∨
+       (cls = 2 ∧ nameIn resentRcptFields d.text = true ∧
+          d.c2 = (L.flatMap Addr.mailboxes).map (fun m => specString sp (rwroute m)) ∧ d.c1 = []))) ∨
+  (nameIn rcptFields d.text = false ∧ nameIn resentRcptFields d.text = false ∧ d.c1 = [] ∧ d.c2 = [])
+
+/-- **The envelope from the raw bytes of a well-formed message** (`C17_headerbody_wellformed` ∘
+`C17_envelope_from_bytes` ∘ `C17_field_end_to_end`): the input is the concatenation of well-formed field texts,
+each described by a `FieldD` (a legal rendering of a recipient field, or not a recipient field), followed by nothing
+or by an empty line and any body; the control values are sane (`CfgSpec`).  If qmail-inject exits 0 and queues, the
+recipients handed to qmail-queue are the rewritten command-line arguments (per strategy) followed by the
+concatenation, in field order, of the DOCUMENTED string-level rewritings of the listed mailboxes — those of the
+Resent-To/Cc/Bcc fields if any field is one of the eight Resent- fields, else those of the
+To/Cc/Bcc/Apparently-To fields.  No model function of headerbody.c / token822.c / the rewriting code appears in the
+conclusion. -/
+theorem C17_envelope_end_to_end (e : Env) (a : Args) (fs : List FieldD) (tail : Bytes) (dd dh pd : List Tok) (sp : RwSpec)
+    (hdd : parse ([46] ++ e.defaultdomain) = some dd) (hdh : parse ([AT] ++ e.defaulthost) = some dh)
+    (hpd : parse ([46] ++ e.plusdomain) = some pd) (hc : CfgSpec ⟨dh, dd, pd⟩ sp)
+    (hwf : ∀ d ∈ fs, wfField d.text = true) (hok : ∀ d ∈ fs, d.ok ⟨dh, dd, pd⟩ sp)
+    (htail : tail = [] ∨ ∃ b, tail = LF :: b)
+    (hex : (inject e a ((fs.map (·.text)).flatten ++ tail)).exit = 0) (hq : a.queue = true) :
+    (inject e a ((fs.map (·.text)).flatten ++ tail)).recips =
+      ((if effStrategy a = 3 then [] else a.recips.filterMap (argAddress ⟨dh, dd, pd⟩)) ++
+       (if effStrategy a = 2 then []
+        else if (fs.map (·.text)).any (nameIn resentFields) then fs.flatMap (·.c2)
+        else fs.flatMap (·.c1))).map cstr := by
+  have hcontrib : ∀ d ∈ fs, hrContribution ⟨dh, dd, pd⟩ 1 d.text = d.c1 ∧ hrContribution ⟨dh, dd, pd⟩ 2 d.text = d.c2 := by
+    intro d hd
+    rcases hok d hd with ⟨cls, L, cts, tr, name, colon, body, ht, hL, hokc, hsep, htr, htoks, hskel, hshape, hcls⟩ | ⟨h1, h2, e1, e2⟩
+    · rcases hcls with ⟨rfl, hn, e1, e2⟩ | ⟨rfl, hn, e2, e1⟩
+      · have := C17_field_end_to_end ⟨dh, dd, pd⟩ sp hc 1 L cts tr name colon body hL hokc hsep htr htoks hskel hshape
+          (Or.inl ⟨rfl, ht ▸ hn⟩)
+        rw [ht, e1, e2]; exact this
+      · have := C17_field_end_to_end ⟨dh, dd, pd⟩ sp hc 2 L cts tr name colon body hL hokc hsep htr htoks hskel hshape
+          (Or.inr ⟨rfl, ht ▸ hn⟩)
+        rw [ht, e1, e2]; exact ⟨this.2, this.1⟩
+    · have n1 : ¬ (fieldClass (hfieldKnown d.text)).1 = 1 := fun h => by
+        have := (rcpt_class_name d.text).mp h; rw [h1] at this; exact absurd this (by simp)
+      have n2 : ¬ (fieldClass (hfieldKnown d.text)).1 = 2 := fun h => by
+        have := (resent_class_name d.text).mp h; rw [h2] at this; exact absurd this (by simp)
+      simp [hrContribution, n1, n2, e1, e2]
+  have hflat : ∀ (k : Nat) (g : FieldD → List Bytes), (∀ d ∈ fs, hrContribution ⟨dh, dd, pd⟩ k d.text = g d) →
+      (fs.map (·.text)).flatMap (hrContribution ⟨dh, dd, pd⟩ k) = fs.flatMap g := by
+    intro k g hg
+    rw [List.flatMap_map]
+    exact flatMap_congr' _ _ _ hg
+  have hfields := (spec_wellformed (fs.map (·.text)) tail (by
+    intro t ht
+    simp only [List.mem_map] at ht
+    obtain ⟨d, hd, rfl⟩ := ht
+    exact hwf d hd) htail).1
+  have := C17_envelope_from_bytes e a _ dd dh pd hdd hdh hpd hex hq
+  rw [this]
+  simp only [specFields, hfields]
+  rw [hflat 1 (·.c1) (fun d hd => (hcontrib d hd).1), hflat 2 (·.c2) (fun d hd => (hcontrib d hd).2)]
+  have hany : (fs.map (·.text)).any isResentField = (fs.map (·.text)).any (nameIn resentFields) := by
+    congr 1; funext h; exact isResentField_name h
+  rw [hany]
+
+/-- non-vacuity of `C17_envelope_end_to_end`: the message `To: a@b,` LF SP `c@x+` LF `Subject: s` LF LF `z` -/
+def exFieldTo : FieldD := ⟨render exCts2 [10], [[99, 64, 120, 46, 112], [97, 64, 98, 46, 100]], []⟩
+def exFieldSubj : FieldD := ⟨[83, 117, 98, 106, 101, 99, 116, 58, 32, 115, 10], [], []⟩
+example : wfField exFieldTo.text = true ∧ wfField exFieldSubj.text = true := by decide +kernel
+example : exFieldSubj.ok exCfg exSp := Or.inr (by decide +kernel)
+example : exFieldTo.ok exCfg exSp :=
+  Or.inl ⟨1, exTree2, exCts2, [10], .atom [84, 111], .colon, _, rfl,
+    (by intro a h
+        simp only [exTree2, List.mem_cons, List.not_mem_nil, or_false] at h
+        rcases h with rfl | rfl <;> simp [Addr.ok, Item.ok, sepOkC, notComment, isWordTok, isSepTok]),
+    by decide, by decide, by decide, rfl, by decide,
+    (by intro m hm
+        have : exTree2.flatMap Addr.mailboxes = [[.atom [120, 43], .at, .atom [99]], [.atom [98], .at, .atom [97]]] := by decide
+        rw [this] at hm
+        simp only [List.mem_cons, List.not_mem_nil, or_false] at hm
+        rcases hm with rfl | rfl <;> exact ⟨by decide, fun y h => by simp at h⟩),
+    Or.inl ⟨rfl, by decide, by decide, rfl⟩⟩
+example : (inject exEnv4 {} (([exFieldTo, exFieldSubj].map (·.text)).flatten ++ [10, 122])).exit = 0 ∧
+    (inject exEnv4 {} (([exFieldTo, exFieldSubj].map (·.text)).flatten ++ [10, 122])).recips = [[99, 64, 120, 46, 112], [97, 64, 98, 46, 100]] := by
+  decide +kernel
+
+end WellFormed
+
+/-! ### Session 4: the line structure of `token822_unparse`'s output, and Bcc removal on the final text from token-level conditions -/
+
+section UnparseLines
+open Nq.Spec.HeaderBody Nq.Spec.Hidden Nq.Lemmas.C17HB Nq.Lemmas.C17Hid Nq.Lemmas.C17UL
+
+/-- **`token822_unparse` writes ONE logical line** — for every line length (whatever the `NSUW` folding macro
+deletes or keeps) and every token list in which no token holds a LF: the output ends in LF and every other LF in it
+is followed by SP (the folds).  Invariant of the second pass: "every LF written so far is followed by SP, and `linee`
+points at such a pair", preserved by the macro's deletion of a tentative fold. -/
+theorem C17_unparse_logical_line (n : Nat) (ts : List Tok) (h : ts.all lfFree = true) :
+    logicalLine (unparse n ts) = true :=
+  unparse_logical n ts h
+
+example : unparse 3 [.atom [97], .comma, .atom [98], .comma, .atom [99]] = [97, 44, 10, 32, 32, 98, 44, 10, 32, 32, 99, 10] ∧
+    logicalLine [97, 44, 10, 32, 32, 98, 44, 10, 32, 32, 99, 10] = true := by decide
+/-- complement: a quoted string holding LF `B` is written `"\` LF `B"` — the second line begins with `B`; the
+hypothesis cannot be dropped -/
+example : lfFree (.quote [10, 66]) = false ∧ unparse 80 [.atom [84], .colon, .quote [10, 66]] = [84, 58, 32, 34, 92, 10, 66, 34, 10] ∧
+    logicalLine [84, 58, 32, 34, 92, 10, 66, 34, 10] = false := by decide
+
+/-- **… and for `name : tokens` it is a safe piece**: if moreover the token list begins with an atom and a colon
+and the atom's text (optionally with `pre`, e.g. `Resent-`, in front) is not a hidden field name (`toksSafe`), then no
+line of `pre ++ token822_unparse(tokens)` can be taken for a Bcc/Resent-Bcc/Return-Path/Content-Length field by the
+independent reader: its first line carries that name, every other line begins with SP. -/
+theorem C17_unparse_safe (pre : Bytes) (hpre : LF ∉ pre) (n : Nat) (ts : List Tok) (h : toksSafe pre ts = true) :
+    pieceSafe (pre ++ unparse n ts) = true :=
+  unparse_safe_pre pre hpre n ts h
+
+example : toksSafe [] [.atom [84, 111], .colon, .atom [97], .at, .quote [98, 32, 99]] = true := by decide +kernel
+/-- complement: `Bcc : x` as tokens is not `toksSafe` (hidden name), nor is a list that does not begin `atom :` -/
+example : toksSafe [] [.atom [66, 99, 99], .colon, .atom [120]] = false ∧ toksSafe [] [.quote [84], .colon] = false := by decide +kernel
+
+/-- **Bcc removal on the final text from TOKEN-level conditions, PARTIAL** (strengthens `C17_bcc_text_partial`: the
+hypotheses about the TEXT of the rewritten fields and of the generated From are replaced by conditions on the token
+lists handed to `token822_unparse`).  For every message and option set with which qmail-inject exits 0 and queues:
+if the Date and Message-ID texts of the environment are safe pieces, and for the generated From field (`fromOk`) and
+for every address-bearing field of the input that is not itself dropped (`rewrittenOk`; class ≠ 0, name not hidden) the token list that `token822_addrlist`
+produces — when it accepts — begins with `atom :`, holds no LF in any token and names no hidden field, then the
+independent reader finds no Bcc/Resent-Bcc/Return-Path/Content-Length name in the message handed to qmail-queue.
+Still NOT proved (hence `_partial`; oracle `Ihidden` covers it on every produced message): (i) that
+`token822_addrlist`/`rwgeneric` keep the field's first two tokens and put no LF into a token — i.e. `rewrittenOk` from
+a condition on the INPUT field text; (ii) the case of a token that does hold a LF (a quoted-pair `\` LF in a quoted
+string, comment, literal, or after an atom), where `token822_unparse` writes `\` LF and the next line begins with
+whatever follows. -/
+theorem C17_bcc_text_tokens_partial (e : Env) (a : Args) (inp : Bytes) (dd dh pd : List Tok)
+    (hdd : parse ([46] ++ e.defaultdomain) = some dd) (hdh : parse ([AT] ++ e.defaulthost) = some dh)
+    (hpd : parse ([46] ++ e.plusdomain) = some pd)
+    (hex : (inject e a inp).exit = 0) (hq : a.queue = true)
+    (hdate : pieceSafe e.date = true ∧ pieceSafe (str "Resent-" ++ e.date) = true)
+    (hmsgid : pieceSafe (msgid e) = true ∧ pieceSafe (str "Resent-" ++ msgid e) = true)
+    (hfrom : fromOk e ⟨dh, dd, pd⟩ = true)
+    (hrw : ∀ h ∈ specFields inp, (fieldClass (hfieldKnown h)).1 ≠ 0 → nameIn hiddenFields h = false →
+      rewrittenOk ⟨dh, dd, pd⟩ h = true) :
+    ∀ n ∈ fieldNames (inject e a inp).msg, n ∉ hiddenFields := by
+  apply C17_bcc_text_partial e a inp dd dh pd hdd hdh hpd hex hq hdate hmsgid
+  · exact fun t ht => defaultFrom_safe e _ hfrom t ht
+  · intro h hh hcls p hp
+    have hl := (C17_headerbody_laws inp).2.2 h ((C17_headerbody_spec inp).1 ▸ hh)
+    unfold savedContribution at hp
+    simp only [hcls, if_false] at hp
+    split at hp
+    · simp at hp
+    · split at hp
+      · simp at hp
+      · rename_i hdrop
+        simp only [List.mem_singleton] at hp
+        subst hp
+        have hn : nameIn hiddenFields h = false := by
+          rw [← dropped_name h]; simpa using hdrop
+        exact rewriteField_safe _ _ h hl.1 hl.2.1 hn (hrw h hh hcls hn)
+
+/-- non-vacuity (the message of `exInp4`): the token-level conditions hold -/
+example : fromOk exEnv4 exCfg = true ∧
+    (∀ h ∈ specFields exInp4, (fieldClass (hfieldKnown h)).1 ≠ 0 → nameIn hiddenFields h = false → rewrittenOk exCfg h = true) :=
+  ⟨by decide +kernel, by decide +kernel⟩
+
+end UnparseLines
 
 end Nq.Props.C17
